@@ -37,21 +37,28 @@ def slippage_cases(rng, tier):
               (0, 1, 1, 1, 1), (D, 5, 7, 1, W128 - 1), (10 ** 16, 0, 5, 5, 5), (10 ** 16, 5, 0, 5, 5),
               (10 ** 16, 5, 5, 0, 5), (10 ** 16, 5, 5, 5, 0), (None, 0, 0, 0, 0), (None, 5, 6, 7, 8)]:
         cases.append(slippage_case(*v, "corpus"))
-    for _ in range(150 * n):
+    for it in range(150 * n):
         t = rng.choice(ts)
         mode = rng.randrange(3)
+        if it < 12:
+            mode = 2        # the first few: boundaries at price ratios beyond 2^128/10^18 (the ratio itself needs > 128 bits
+            t = rng.choice([10 ** 16, 5 * 10 ** 16, 5 * 10 ** 17, 1])   # as a fixed-point number), both ways round
         if mode == 0:
             d0, d1, p0, p1 = (loguniform(rng, 1, 127) for _ in range(4))
         else:
             # deposits near the pool ratio
             p0, p1 = loguniform(rng, 10, 110), loguniform(rng, 10, 110)
+            if it < 12:
+                p1 = loguniform(rng, 20, 40)
+                p0 = p1 * loguniform(rng, 70, 85)
             k = loguniform(rng, 1, 16) + 1
             d1 = max(1, p1 // k)
             d0 = max(1, p0 * d1 // p1)
-            if mode == 2 and t <= D:
-                # binary search the largest accepted d0
-                lo, hi = 1, W128 - 1
-                if _slip_accept(t, lo, d1, p0, p1):
+            if mode == 2 and t <= D and _slip_accept(t, d0, d1, p0, p1):
+                # the accepted deposits form a band around the pool ratio: binary search its upper or its lower edge,
+                # starting from the (accepted) centre
+                if rng.random() < 0.5:
+                    lo, hi = d0, W128 - 1
                     while lo < hi:
                         mid = (lo + hi + 1) // 2
                         if _slip_accept(t, mid, d1, p0, p1):
@@ -59,6 +66,15 @@ def slippage_cases(rng, tier):
                         else:
                             hi = mid - 1
                     d0 = lo
+                else:
+                    lo, hi = 0, d0
+                    while lo < hi:
+                        mid = (lo + hi) // 2
+                        if _slip_accept(t, mid, d1, p0, p1):
+                            hi = mid
+                        else:
+                            lo = mid + 1
+                    d0 = max(1, lo - 1)
         for dd in (-1, 0, 1, 2):
             v = d0 + dd
             if 0 <= v < W128:
